@@ -80,7 +80,7 @@ theorem parse_scalar (L : C10.FloatLaws F) (b : Bytes) (q : Bytes) (f : Nat)
     rw [← List.append_assoc] at hd ⊢
     parse_nav
     exact parse_of_decoder _ _ _ _ hd (by simp)
-  · have hd := C10.float32_roundtrip_partial F L q x h
+  · have hd := C10.float32_decodes F L q x h
     unfold encFloat32 at hd ⊢
     rw [← List.append_assoc] at hd ⊢
     parse_nav
